@@ -112,10 +112,10 @@ CLAIMS = {
     },
     "C12": {
         "engine": "verus+kani",
-        "technique": V + ": Transport::read requires flushed == |wire| (ghost instrumentation), PacketConn::next requires a quiescent writer; every caller must discharge it; + Kani bounded harnesses: after the TLS upgrade write/flush still reach the socket (PrependedReader, SwitchableConn routing)",
+        "technique": V + ": Transport::read requires flushed == |wire| (ghost instrumentation), PacketConn::next requires a quiescent writer; every caller must discharge it; Verus unit U8: after the TLS upgrade write/flush still reach the socket (PrependedReader::{write,flush}, SwitchableConn routing) + Kani bounded cross-check on the real std types",
         "design_ref": "DESIGN.md section 6 C12",
         "text": "The only operation that can wait for the peer carries the precondition 'everything written is flushed and nothing is buffered'; next, run and init are proved to establish it at every call (flush after the greeting, after the auth reply, at the end of every command iteration); a complete buffered packet is served without another read.",
-        "note": "Transport contract is the model of the stream; 'answered' per command relies on C03. Under TLS the Transport seen by the proof is SwitchableConn: that its flush reaches the socket is checked by K7 for the library's own wrappers (bounded, <= 3 bytes); rustls' own buffering is trusted.",
+        "note": "Transport contract is the model of the stream; 'answered' per command relies on C03. Under TLS the Transport seen by the proof is SwitchableConn: that its flush reaches the socket is proved in Verus unit U8 for the library's own wrappers ([C12.prepend.flush], [C12.route.flush]) and cross-checked by K7 (bounded, <= 3 bytes); rustls' own buffering is trusted.",
     },
     "C13": {
         "engine": "verus+kani",
@@ -154,10 +154,10 @@ CLAIMS = {
     },
     "C18": {
         "engine": "verus+kani",
-        "technique": V + " (switch_to_tls hands exactly the unparsed tail to the TLS layer and resets the buffer; init upgrades only when nothing is buffered or unflushed, refuses CLIENT_SSL without a config before after_authentication) + Kani bounded harnesses on PrependedReader / SwitchableConn",
+        "technique": V + " (switch_to_tls hands exactly the unparsed tail to the TLS layer and resets the buffer; init upgrades only when nothing is buffered or unflushed, refuses CLIENT_SSL without a config before after_authentication) + Verus unit U8 on src/tls.rs (PrependedReader proved to implement the Transport contract with inbox = prepended ++ socket; SwitchableConn read/write/flush/new/switch_to_tls) + Kani bounded harnesses on the real std Chain/Cursor underneath",
         "design_ref": "DESIGN.md section 6 C18",
-        "text": "PARTIAL CLAIM (the library's own side of the hand-over): switch_to_tls passes bytes[len-remaining..] -- whatever the chunking left unparsed -- so that the TLS layer's input stream is exactly pending (no byte skipped, none parsed twice); at the switch the writer is quiescent (no plaintext buffered or unflushed); the second handshake's user name reaches after_authentication; PrependedReader delivers prepended ++ socket bytes in order, each once, under every read chunking (bounded), writes/flushes go to the socket only.",
-        "note": "TRUSTED and outside any contract on this crate: rustls (record layer, handshake, 'nothing in plaintext after the switch' at the level of record contents, peer certificates), std::io::Chain/Cursor. K7 is bounded (prepended <= 3, socket <= 3 bytes, 5 reads). The Tls variant of SwitchableConn cannot be constructed inside CBMC.",
+        "text": "PARTIAL CLAIM (the library's own side of the hand-over): switch_to_tls passes bytes[len-remaining..] -- whatever the chunking left unparsed -- so that the TLS layer's input stream is exactly pending (no byte skipped, none parsed twice); at the switch the writer is quiescent (no plaintext buffered or unflushed); the second handshake's user name reaches after_authentication; PrependedReader is proved (Verus U8, unbounded) to be a Transport whose inbox is prepended ++ socket bytes -- in order, each once, under every read chunking -- and whose writes/flushes reach the socket only; SwitchableConn forwards read/write/flush to its current variant, and switch_to_tls hands to_prepend ++ socket to the TLS session keeping the plaintext-level views.",
+        "note": "TRUSTED and outside any contract on this crate: rustls (record layer, handshake, 'nothing in plaintext after the switch' at the level of record contents, peer certificates), create_stream (rustls construction). ASSUMED: std::io::Chain/Cursor read order (stub contract in prelude/tlsdeps.vrs; checked against the real std code by K7, bounded: prepended <= 3, socket <= 3 bytes, 5 reads), std default write_all. SwitchableConn's methods are proved under the invariant 'a stream is present' (established by new, kept by every method that returns Ok); the opaque SwitchableConn the other units see is tied to U8 by the shared predicates read_post/write_post/flush_post, not by an import.",
     },
     "C19": {
         "engine": "verus",
